@@ -377,7 +377,10 @@ def _surface_instances(tier):
            dict(shape=S_12R, samples=[2, 3], sp=1, symbolic_kv=False),
            dict(shape=S_22, samples=[4, 4], sp=1, symbolic_kv=False),
            dict(shape=S_11K, samples=[3, 3], sp=2, symbolic_kv=True),
-           dict(shape=S_22, samples=[4, 7], sp=3, symbolic_kv=False)]
+           dict(shape=S_22, samples=[4, 7], sp=3, symbolic_kv=False),
+           # the surface was sampled on a sub-rectangle of its domain before (evaluate(start_u=..., stop_v=...))
+           dict(shape=S_21, samples=[3, 4], sp=1, symbolic_kv=False, pre='partial'),
+           dict(shape=S_12R, samples=[3, 3], sp=2, symbolic_kv=False, pre='partial')]
     if tier == 'thorough':
         out += [dict(shape=S_22, samples=[4, 3], sp=1, symbolic_kv=True),
                 dict(shape=S_32R, samples=[3, 4], sp=1, symbolic_kv=False),
@@ -392,7 +395,7 @@ def _surface_instances(tier):
                       '_tessellate.make_triangle_mesh', 'BSpline.Surface.evaluate_single', 'BSpline.Surface.evaluate',
                       'utilities.check_params'],
           quick=lambda: _surface_instances('quick'), thorough=lambda: _surface_instances('thorough'))
-def surface_mesh(ctx, shape, samples, sp, symbolic_kv):
+def surface_mesh(ctx, shape, samples, sp, symbolic_kv, pre=None):
     """requires: a valid B-spline / NURBS surface (symbolic control points, positive symbolic weights, optionally symbolic
                  interior knots), sample sizes `samples`, vertex_spacing sp dividing both sample sizes minus one
        ensures : Surface.tessellate(vertex_spacing=sp) [sp = 1: the default] then .vertices / .faces give a mesh with
@@ -402,6 +405,9 @@ def surface_mesh(ctx, shape, samples, sp, symbolic_kv):
     srf = _build(ctx, d)
     srf.sample_size_u, srf.sample_size_v = samples
     ctx.check_true('setup.sample_size', [srf.sample_size_u, srf.sample_size_v] == list(samples))
+    if pre == 'partial':
+        srf.evaluate(start_u=ctx.lit(Fraction(1, 4)), stop_u=ctx.lit(Fraction(3, 4)), start_v=ctx.lit(Fraction(1, 8)),
+                     stop_v=ctx.lit(Fraction(1, 2)))
     if sp == 1:
         verts = _call(ctx, 'mesh.vertices_property_tessellates', lambda: srf.vertices)
     else:
